@@ -2599,59 +2599,71 @@ setattr_delegate(
     PyObject *temp;
     has_traits_object *delegate;
     has_traits_object *temp_delegate;
+    trait_object *temp_traitd;
     int i, result;
 
-    /* Follow the delegation chain until we find a non-delegated trait: */
+    /* Follow the delegation chain until we find a non-delegated trait. Strong
+       references to the current delegate and to the current trait are held
+       throughout: the calls made on them can run arbitrary user code, which
+       may drop every other reference to them. */
     daname = name;
     Py_INCREF(daname);
     delegate = obj;
+    Py_INCREF(delegate);
+    Py_INCREF(traitd);
     for (i = 0;;) {
         dict = delegate->obj_dict;
         if ((dict != NULL)
             && ((temp_delegate = (has_traits_object *)PyDict_GetItem(
                      dict, traitd->delegate_name))
                 != NULL)) {
-            delegate = temp_delegate;
+            Py_INCREF(temp_delegate);
         }
         else {
             // Handle the case when the delegate is not in the instance
             // dictionary (could be a method that returns the real delegate):
-            delegate = (has_traits_object *)has_traits_getattro(
+            temp_delegate = (has_traits_object *)has_traits_getattro(
                 delegate, traitd->delegate_name);
-            if (delegate == NULL) {
-                Py_DECREF(daname);
-                return -1;
+            if (temp_delegate == NULL) {
+                result = -1;
+                break;
             }
-            Py_DECREF(delegate);
         }
+        Py_DECREF(delegate);
+        delegate = temp_delegate;
 
         // Verify that 'delegate' is of type 'CHasTraits':
         if (!PyHasTraits_Check(delegate)) {
-            Py_DECREF(daname);
-            return bad_delegate_error2(obj, name);
+            result = bad_delegate_error2(obj, name);
+            break;
         }
 
         daname2 = traitd->delegate_attr_name(traitd, obj, daname);
         Py_DECREF(daname);
-        if (daname2 == NULL) {
-            return -1;
-        }
         daname = daname2;
+        if (daname == NULL) {
+            result = -1;
+            break;
+        }
         if (((delegate->itrait_dict == NULL)
-             || ((traitd = (trait_object *)dict_getitem(
+             || ((temp_traitd = (trait_object *)dict_getitem(
                       delegate->itrait_dict, daname))
                  == NULL))
-            && ((traitd = (trait_object *)dict_getitem(
+            && ((temp_traitd = (trait_object *)dict_getitem(
                      delegate->ctrait_dict, daname))
                 == NULL)
-            && ((traitd = get_prefix_trait(delegate, daname, 1)) == NULL)) {
-            Py_DECREF(daname);
-            return bad_delegate_error(obj, name);
+            && ((temp_traitd = get_prefix_trait(delegate, daname, 1))
+                == NULL)) {
+            result = bad_delegate_error(obj, name);
+            break;
         }
+        Py_INCREF(temp_traitd);
+        Py_DECREF(traitd);
+        traitd = temp_traitd;
 
         if (Py_TYPE(traitd) != ctrait_type) {
-            Py_DECREF(daname);
-            return fatal_trait_error();
+            result = fatal_trait_error();
+            break;
         }
 
         if (traitd->delegate_attr_name == NULL) {
@@ -2673,15 +2685,20 @@ setattr_delegate(
                     }
                 }
             }
-            Py_DECREF(daname);
-
-            return result;
+            break;
         }
 
         if (++i >= 100) {
-            return delegation_recursion_error(obj, name);
+            result = delegation_recursion_error(obj, name);
+            break;
         }
     }
+
+    Py_XDECREF(daname);
+    Py_DECREF(traitd);
+    Py_DECREF(delegate);
+
+    return result;
 }
 
 /*-----------------------------------------------------------------------------
